@@ -119,7 +119,7 @@ func checkStreamMethod(t *testing.T, b *rt.Built, s *m.Service, meth *m.Method) 
 	run := func(c *streamcase.Case) string {
 		obs, err := b.H.Do(c.Harness())
 		if err != nil {
-			return "INCONCLUSIVE harness: " + err.Error()
+			return "INCONCLUSIVE: harness: " + err.Error()
 		}
 		return judgeStream(d, s, meth, c, obs)
 	}
